@@ -407,8 +407,14 @@ pub fn gen_c02(rng: &mut Rng, count: usize, _thorough: bool) -> Vec<Case> {
             // a literal array (holding operation-shaped members) as an operand of any operator:
             // nothing inside it is evaluated
             let lit = Value::Array(vec![v.clone(), var("a"), json!({"+": [1, 2]}), json!({"==": [1]})]);
-            let d = json!({"a": 1, "xs": [1, {"var": "a"}]});
-            let r = match rng.below(14) {
+            let d = json!({"a": 1, "xs": [1, {"var": "a"}], "needle": {"var": "a"}});
+            let r = match rng.below(19) {
+                // one level below the collection of a quantifier nothing is evaluated any more
+                14 => op(*rng.pick(&["some", "all", "none"]), vec![Value::Array(vec![lit]), op("in", vec![int(1), var("")])]),
+                15 => op(*rng.pick(&["some", "all", "none"]), vec![Value::Array(vec![int(0), Value::Array(vec![json!({"var": "a"})])]), op("in", vec![int(1), var("")])]),
+                16 => op(*rng.pick(&["some", "all", "none"]), vec![Value::Array(vec![Value::Array(vec![json!({"var": [1, 2, 3]})])]), json!(false)]),
+                17 => op(*rng.pick(&["map", "filter"]), vec![Value::Array(vec![lit]), op("in", vec![int(1), var("")])]),
+                18 => op("in", vec![var("needle"), Value::Array(vec![json!({"var": "a"}), int(2)])]),
                 0 => op("merge", vec![lit]),
                 1 => op("in", vec![var("a"), lit]),
                 2 => op("in", vec![int(3), lit]),
@@ -483,6 +489,14 @@ pub fn gen_c03(rng: &mut Rng, count: usize, thorough: bool) -> Vec<Case> {
             out.push(apply("nested-count", r, data.clone()));
         }
     }
+    // members of a collection written in the rule are expressions: the bare form of an operator
+    // that cannot take one operand is rejected there as anywhere
+    for q in ["all", "some", "none"] {
+        for m in [json!({"==": 1}), json!({"in": "stock"}), json!({"%": 2}), json!({"<": 1}), json!({"substr": "abc"}), json!({"map": 1}), json!({"!": {"in": "stock"}}), json!({"+": [1, {"/": 2}]})] {
+            out.push(apply("member-count", op(q, vec![Value::Array(vec![m.clone()]), json!(true)]), data.clone()));
+            out.push(apply("member-count", op(q, vec![Value::Array(vec![int(0), var("a"), m.clone()]), var("")]), data.clone()));
+        }
+    }
     // the two spellings of one non-array operand: emitted as adjacent pairs (2i, 2i+1)
     let vals = values();
     let mut pairs = Vec::new();
@@ -497,6 +511,14 @@ pub fn gen_c03(rng: &mut Rng, count: usize, thorough: bool) -> Vec<Case> {
             let d = rand_data(rng);
             pairs.push(apply(&format!("bare:{}", name), op1(name, x.clone()), d.clone()));
             pairs.push(apply(&format!("bracketed:{}", name), op(name, vec![x]), d));
+        }
+    }
+    // ... also when the bare operand is an expression whose VALUE is an array
+    let arr_data = json!({"l": [1, 5], "parts": ["a", "b"], "nested": [[1], [2]], "e": [], "one": [7], "a": 1, "b": [1, 2]});
+    for name in all_ops() {
+        for x in [var("l"), var("parts"), var("nested"), var("e"), var("one"), op("merge", vec![var("l"), var("one")]), op("filter", vec![var("l"), json!(true)])] {
+            pairs.push(apply(&format!("bare:{}", name), op1(name, x.clone()), arr_data.clone()));
+            pairs.push(apply(&format!("bracketed:{}", name), op(name, vec![x]), arr_data.clone()));
         }
     }
     while out.len() % 2 != 0 {
@@ -641,6 +663,11 @@ fn c05_operand(rng: &mut Rng, depth: usize) -> Value {
             let v = rng.pick(&c).clone();
             if is_operation(&v) { json!(true) } else { v }
         }
+        16 if rng.chance(1, 2) => rng.pick(&[
+            // literals that merely contain an operator name among several keys
+            json!({"if": [true, "inner-then", "inner-else"], "note": "just data"}), json!({"?:": [true, 1, 2], "k": 0}), json!({"or": [1], "x": 2}),
+            json!({"if": [true, {"substr": [1, 2]}, 0], "meta": 1}), json!({"and": [0], "log": "no"}),
+        ]).clone(),
         16 => var(&format!("c{}", rng.below(corner_values().len()))), // ... and read from the data
         0 => json!(true),
         1 => json!(false),
@@ -753,6 +780,13 @@ pub fn gen_c06(rng: &mut Rng, count: usize, _thorough: bool) -> Vec<Case> {
         }
         out.push(apply(&format!("or/computed-{}", tag), op("or", vec![r.clone(), s("next")]), json!({})));
         out.push(apply(&format!("if/computed-{}", tag), op("if", vec![r.clone(), s("T"), s("F")]), json!({})));
+    }
+    // a predicate that is itself a literal (an array above all): judged as the value it is
+    for pred in [json!([0]), json!([]), json!([1, 2]), json!([[]]), json!([false]), json!([{"var": ""}]), json!(""), json!("0"), json!(0.0), json!({}), json!({"a": 1, "b": 2})] {
+        for q in ["all", "some", "none", "filter"] {
+            out.push(apply(&format!("{}/literal-pred", q), op(q, vec![json!([1, 2]), pred.clone()]), Value::Null));
+            out.push(apply(&format!("{}/literal-pred", q), op(q, vec![var("xs"), pred.clone()]), json!({"xs": [0]})));
+        }
     }
     // several values at once: each element is judged on its own, whatever its neighbours are
     // (look-alikes side by side: 0 and "0", false and "false", null and "null", [] and "")
@@ -889,6 +923,7 @@ pub fn gen_c08(rng: &mut Rng, count: usize, thorough: bool) -> Vec<Case> {
         (int(1), fl(1.0)), (int(0), fl(-0.0)), (int(9007199254740993), int(9007199254740992)), (fl(0.30000000000000004), fl(0.3)),
         (fl(1e-300), int(0)), (json!([1, 2]), json!([1, 2])), (json!({}), json!({})), (s("1"), int(1)),
         // the same "value" in two types: never strictly equal
+        (Value::Null, json!([])), (Value::Null, json!({})), (json!(false), json!([])), (s(""), json!([])), (int(0), json!([])), (int(0), json!([0])),
         (json!(true), int(1)), (json!(false), int(0)), (json!(true), fl(1.0)), (json!(false), fl(-0.0)), (Value::Null, int(0)), (Value::Null, json!(false)),
         (s(""), int(0)), (s("true"), json!(true)), (s("null"), Value::Null), (json!([]), s("")), (json!([1]), int(1)), (json!({}), s("[object Object]")),
     ];
@@ -930,6 +965,15 @@ pub fn gen_c09(rng: &mut Rng, count: usize, thorough: bool) -> Vec<Case> {
     );
     let all = values();
     let core = core_values();
+    // adjacent operands are compared pair by pair: two strings as text even when the third is a number
+    let mix = [s("10"), s("9"), int(10), int(9), fl(9.5), s("1"), s(" 1"), Value::Null, json!(true), json!([" 1"]), s("abc"), json!([10]), s("2")];
+    for a in mix.iter() {
+        for b in mix.iter() {
+            let c = rng.pick(&mix).clone();
+            let o = *rng.pick(&["<", "<=", ">", ">="]);
+            out.push(apply(&format!("between-mix:{}", o), op(o, vec![a.clone(), b.clone(), c]), Value::Null));
+        }
+    }
     while out.len() < count {
         let pool = if rng.chance(1, 2) { &core } else { &all };
         let (a, b, c) = (rng.pick(pool).clone(), rng.pick(pool).clone(), rng.pick(pool).clone());
@@ -1098,6 +1142,19 @@ pub fn gen_c11(rng: &mut Rng, count: usize, _thorough: bool) -> Vec<Case> {
     for (r, d) in regress {
         out.push(apply("regress", r, d));
     }
+    for (p, d) in [
+        ("name.0.length", json!({"name": "Zoë"})), ("a.0.5", json!({"a": "xyz"})), ("a.0.0", json!({"a": "xyz"})), ("a.0.-1.0", json!({"a": "xyz"})), ("-1.1", s("héllo")),
+        ("1.2.-2", json!(["ab", "cde"])), ("1.2.0.0.1", json!(["ab", "cde"])), ("user.name", json!({"user": {"name": "nested"}, "user.name": "flat"})),
+        ("a.b", json!({"a": {"c": 1}, "a.b": "unrelated"})), ("x\\y", json!({"xy": 1, "x\\y": 2})), ("", json!({"": "member", "other": 1})), ("a.", json!({"a.": 1, "a": {"": 2}})),
+        ("0", json!({"0": "zero"})), ("01", json!(["a", "b"])), ("-0", json!(["a", "b"])), ("1e0", json!(["a", "b"])), (" 1", json!(["a", "b"])), ("+1", json!(["a", "b"])),
+    ] {
+        for dflt in [None, Some(s("dflt"))] {
+            let mut args = vec![s(p)];
+            if let Some(x) = dflt { args.push(x); }
+            out.push(apply("path-edge", op("var", args), d.clone()));
+        }
+        out.push(apply("path-edge", op("missing", vec![s(p)]), d.clone()));
+    }
     while out.len() < count {
         let dd = 1 + rng.below(4);
         let d = rand_tree(rng, dd);
@@ -1146,6 +1203,9 @@ pub fn gen_c12(rng: &mut Rng, count: usize, _thorough: bool) -> Vec<Case> {
         (json!({"missing_some": [1, [null]]}), json!({})), (json!({"missing_some": [1.5, ["a"]]}), json!({})), (json!({"missing_some": [-1, ["a"]]}), json!({})),
         (json!({"missing_some": [1, "a"]}), json!({})), (json!({"missing": [1.5]}), json!([1])), (json!({"missing": [true]}), json!([1])),
         (json!({"missing_some": [1, ["a", 1.5]]}), json!({"a": 1})), (json!({"missing_some": [2, ["a", 1.5]]}), json!({"a": 1})),
+        (json!({"missing": ["a.0.0", "a.0.-1", "a.0.1", "a.3", "a.0.0.0.0"]}), json!({"a": "xyz"})), (json!({"missing_some": [1, ["q", "a.0.-1"]]}), json!({"a": "xyz"})),
+        (json!({"missing": ["1.0", "1.1", "0.0.0"]}), s("hey")), (json!({"missing": ["a", "", null, 0]}), json!(5)), (json!({"missing": [""]}), Value::Null),
+        (json!({"missing_some": [1, ["", "a"]]}), json!({})), (json!({"missing_some": [2, ["a", "", "b"]]}), json!({"b": 1})), (json!({"missing": ["user.name", "a.b"]}), json!({"user.name": 1, "a": {"b": 2}})),
     ];
     for (r, d) in regress {
         out.push(apply("regress", r, d));
@@ -1279,7 +1339,9 @@ pub fn gen_c13(rng: &mut Rng, count: usize, _thorough: bool) -> Vec<Case> {
             0 => out.push(apply("map", op("map", vec![coll, elem_expr(rng, 2)]), outer)),
             1 => out.push(apply("filter", op("filter", vec![coll, elem_expr(rng, 2)]), outer)),
             _ => {
-                let init = match rng.below(4) {
+                let init = match rng.below(6) {
+                    4 => Value::Null,
+                    5 => var("nope"),
                     0 => var("num"),
                     1 => op("+", vec![var("num"), int(1)]),
                     2 => s(""),
@@ -1304,6 +1366,10 @@ pub fn gen_c14(rng: &mut Rng, count: usize, _thorough: bool) -> Vec<Case> {
         (json!({"all": [5, true]}), Value::Null), (json!({"some": [{"a": 1, "b": 2}, true]}), Value::Null), (json!({"all": [[1, {"==": [1]}], false]}), Value::Null),
         (json!({"some": [[1, {"==": [1]}], true]}), Value::Null), (json!({"all": [[0, 1], {"log": {"var": ""}}]}), Value::Null),
         (json!({"some": [[0, 1, 2], {"log": {"var": ""}}]}), Value::Null),
+        (json!({"some": [[0, {"in": ["a", 7]}, {"log": "after-error"}], {"var": ""}]}), Value::Null), (json!({"none": [[0, {"in": ["a", 7]}, {"log": "after-error"}], {"var": ""}]}), Value::Null),
+        (json!({"some": [{"var": "xs"}, {"in": ["a", {"log": {"var": ""}}]}]}), json!({"xs": ["", 7, "a", {}]})), (json!({"all": [{"var": "xs"}, {"in": ["a", {"log": {"var": ""}}]}]}), json!({"xs": ["a", 7, "b"]})),
+        (json!({"all": [[1, 2], [0]]}), Value::Null), (json!({"all": [[1, 2], []]}), Value::Null), (json!({"all": [[1, 2], [1, 2]]}), Value::Null), (json!({"all": [{"var": "xs"}, [false]]}), json!({"xs": [1]})),
+        (json!({"none": [{"var": "xs"}, {">": [{"var": ""}, 0]}]}), json!({"xs": 0})), (json!({"all": [{"var": "xs"}, true]}), json!({"xs": false})), (json!({"some": [{"-": [1, 1]}, true]}), Value::Null),
     ];
     for (r, d) in regress {
         out.push(apply("regress", r, d));
